@@ -2,6 +2,7 @@ package vc
 
 import (
 	"fmt"
+	"syscall"
 	"runtime"
 	"sync"
 	"sync/atomic"
@@ -18,7 +19,24 @@ var watchdogOnce sync.Once
 
 const memLimitBytes = 6 << 30
 const memHardLimitBytes = 10 << 30
-const unitTimeLimit = 420 * time.Second
+const unitTimeLimit = 1500 * time.Second // wall-clock backstop only; the binding limits are CPU time (below)
+
+// CPU time (this process plus the solver processes it has waited for) is what bounds the
+// generation of one unit: it does not depend on how loaded the machine is.
+const unitCPULimit = 300 * time.Second
+const unitCPUHardLimit = 420 * time.Second
+
+var unitCPUStart atomic.Int64
+
+func cpuNow() time.Duration {
+	var a, b syscall.Rusage
+	syscall.Getrusage(syscall.RUSAGE_SELF, &a)
+	syscall.Getrusage(syscall.RUSAGE_CHILDREN, &b)
+	tv := func(t syscall.Timeval) time.Duration {
+		return time.Duration(t.Sec)*time.Second + time.Duration(t.Usec)*time.Microsecond
+	}
+	return tv(a.Utime) + tv(a.Stime) + tv(b.Utime) + tv(b.Stime)
+}
 
 // hardAbort is installed by the property runner: it reports the unit being processed as
 // undecidable within the verifier's resources (a VIOLATION line with a replay file) and
@@ -29,7 +47,7 @@ var hardAbort func(reason string)
 // unitStarted is when the generation of the current unit began (zero: not generating).
 var unitStarted atomic.Int64
 
-const unitHardTimeLimit = 600 * time.Second
+const unitHardTimeLimit = 1800 * time.Second
 
 func startWatchdog() {
 	watchdogOnce.Do(func() {
@@ -40,6 +58,9 @@ func startWatchdog() {
 				runtime.ReadMemStats(&ms)
 				if ms.HeapAlloc > memLimitBytes {
 					memExceeded.Store(true)
+				}
+				if t0 := unitStarted.Load(); t0 != 0 && hardAbort != nil && cpuNow()-time.Duration(unitCPUStart.Load()) > unitCPUHardLimit {
+					hardAbort(fmt.Sprintf("generating the obligations of this unit used more than %d s of CPU time (state explosion)", int(unitCPUHardLimit.Seconds())))
 				}
 				if t0 := unitStarted.Load(); t0 != 0 && hardAbort != nil && time.Since(time.Unix(0, t0)) > unitHardTimeLimit {
 					hardAbort(fmt.Sprintf("generating the obligations of this unit took more than %d s (state explosion)", int(unitHardTimeLimit.Seconds())))
@@ -56,6 +77,12 @@ func startWatchdog() {
 func (x *Exec) checkLimits() {
 	if memExceeded.Load() {
 		panic(unsupported("memory limit of the verifier exceeded while generating obligations (state explosion)"))
+	}
+	if x.cpuBudget > 0 {
+		x.limitTick++
+		if x.limitTick%64 == 0 && cpuNow()-x.cpuStart > x.cpuBudget {
+			panic(unsupported("CPU time limit for generating the obligations of one unit exceeded (state explosion)"))
+		}
 	}
 	if !x.deadline.IsZero() && time.Now().After(x.deadline) {
 		panic(unsupported("time limit for generating the obligations of one unit exceeded (state explosion)"))
